@@ -220,6 +220,90 @@ func genC03(r *Run) {
 			}
 		}
 	}
+	// ---- structure-aware malformation: every known option type, its value cut at every position, lengthened, and
+	// with every inner 16-bit field perturbed, while the enclosing framing stays well formed (so the option's own
+	// parser, not the option loop, sees the damage); alone, in a message, inside an IA_NA and inside a relay chain
+	v6try := func(b []byte) {
+		var m dhcpv6.DHCPv6
+		entry("dhcpv6.FromBytes", b, func() {
+			if x, err := dhcpv6.FromBytes(append([]byte{}, b...)); err == nil {
+				m = x
+			}
+		})
+		if m != nil && len(b) <= 4096 {
+			obs += observeV6(r, b, m)
+			r.Count("v6-observed")
+		}
+	}
+	for _, c := range knownV6Codes {
+		for k := 0; k < r.N(3, 40); k++ {
+			v := r.genOptCode(c, 2).wire
+			if len(v) > 300 {
+				continue
+			}
+			var variants [][]byte
+			for t := 0; t <= len(v); t++ {
+				variants = append(variants, v[:t])
+			}
+			for e := 1; e <= 3; e++ {
+				variants = append(variants, append(append([]byte{}, v...), r.Bytes(e)...))
+			}
+			for pos := 0; pos+1 < len(v) && pos < 100; pos++ {
+				for _, d := range []int{1, -1, 0x100} {
+					m := append([]byte{}, v...)
+					x := (int(m[pos])<<8 | int(m[pos+1])) + d
+					m[pos], m[pos+1] = byte(x>>8), byte(x)
+					variants = append(variants, m)
+				}
+				m := append([]byte{}, v...)
+				m[pos], m[pos+1] = 0xff, 0xff
+				variants = append(variants, m)
+			}
+			r.Count("v6-structure-aware-variants")
+			for _, x := range variants {
+				entry("dhcpv6.ParseOption", x, func() {
+					if o, err := dhcpv6.ParseOption(dhcpv6.OptionCode(c), append([]byte{}, x...)); err == nil {
+						_ = o.String()
+						_ = o.ToBytes()
+					}
+				})
+				r.Add(eV6Opt, w16(int(c)), x)
+				msg := append([]byte{byte(r.Pick(1, 2, 7)), 1, 2, 3}, tlvb(c, x)...)
+				v6try(msg)
+				v6try(append([]byte{1, 1, 2, 3}, tlvb(3, append(make([]byte, 12), tlvb(c, x)...))...))
+				v6try(append(append([]byte{12, 0}, make([]byte, 32)...), tlvb(9, msg)...))
+			}
+		}
+	}
+	// the same for DHCPv4: each option with a typed reader, its value cut at every position, in an otherwise
+	// valid packet - the typed accessors parse lazily, so they are what meets the damage
+	for _, c := range []byte{1, 3, 6, 12, 15, 42, 43, 50, 51, 52, 53, 54, 55, 57, 58, 59, 60, 61, 66, 67, 77, 81, 82, 93, 94, 97, 118, 119, 121, 124, 125, 252} {
+		for k := 0; k < r.N(2, 30); k++ {
+			id, ok := map[byte]byte{1: 12, 3: 2, 6: 2, 42: 2, 50: 1, 51: 5, 53: 9, 54: 1, 55: 10, 58: 5, 59: 5, 77: 13, 93: 15, 119: 16, 121: 17, 124: 14}[c]
+			var v []byte
+			if ok {
+				v = r.valueFor(id, r.Pick(1, 2, 4, 8, 9, 20))
+			} else {
+				v = r.Bytes(r.Pick(1, 2, 3, 5, 8, 17, 40))
+				if c == 82 || c == 43 || c == 125 || c == 124 {
+					v = append([]byte{byte(r.Pick(1, 2, 5)), byte(r.Pick(0, 1, 3, 200))}, v...)
+				}
+			}
+			for t := 0; t <= len(v) && t < 60; t++ {
+				b := pktOfArgs(r.randPkt(map[byte][]byte{53: {byte(r.Pick(1, 2, 5))}, c: v[:t]})).ToBytes()
+				var p *dhcpv4.DHCPv4
+				entry("dhcpv4.FromBytes", b, func() {
+					if x, err := dhcpv4.FromBytes(append([]byte{}, b...)); err == nil {
+						p = x
+					}
+				})
+				if p != nil {
+					obs += observeV4(r, b, p)
+					r.Count("v4-observed")
+				}
+			}
+		}
+	}
 	// ---- netboot conversations (sequences of 0..4 decoded messages)
 	for i := 0; i < r.N(400, 20000); i++ {
 		var conv []dhcpv6.DHCPv6
